@@ -9,11 +9,15 @@
    the latch at the end of the segment iff `checked`.  When the latch is
    consulted and set, the call returns (n, err) with n = bytes it has counted
    so far (it counts a segment only after the segment succeeded).  The io.Writer
-   fails at Write index FailAt, once or permanently.
+   fails at Write index FailAt, once or permanently; it either takes nothing
+   (0, err) or takes the bytes and reports the failure with the full count
+   (len(p), err) - io.Writer allows both ("oncefull" / "permfull").
 
    Deviation "UncheckedSegment": some segment returns without consulting its
    latch (packet.go:writePacketAdaptationField, IsOneByteStuffing branch, before
-   the fix).  Dev = {} must satisfy Surfaced. *)
+   the fix).  Deviation "FailureByShortCount": a write counts as failed only when
+   its count is short (the error value is not looked at).  Dev = {} must satisfy
+   Surfaced. *)
 EXTENDS Integers, Sequences, TLC
 CONSTANTS Shapes,      \* set of calls; a call is a sequence of [writes, sz, checked]
           MaxFail, Dev
@@ -22,11 +26,12 @@ vars == <<shape, failAt, mode, seg, k, wcalls, accepted, counted, latch, fired, 
 
 Checked(s) == IF "UncheckedSegment" \in Dev THEN s.checked ELSE TRUE
 
-Init == /\ shape \in Shapes /\ failAt \in 0..MaxFail /\ mode \in {"once", "perm"}
+Init == /\ shape \in Shapes /\ failAt \in 0..MaxFail /\ mode \in {"once", "perm", "oncefull", "permfull"}
         /\ seg = 1 /\ k = 0 /\ wcalls = 0 /\ accepted = 0 /\ counted = 0 /\ latch = FALSE /\ fired = FALSE
         /\ phase = "run" /\ ret = [n |-> 0, err |-> FALSE]
 
-Fails == IF mode = "once" THEN wcalls = failAt ELSE wcalls >= failAt
+Fails == IF mode \in {"once", "oncefull"} THEN wcalls = failAt ELSE wcalls >= failAt
+Full == mode \in {"oncefull", "permfull"}
 
 \* one Write call of the current segment (skipped when the batch has latched an error)
 DoWrite ==
@@ -34,7 +39,9 @@ DoWrite ==
   /\ k' = k + 1
   /\ IF latch THEN UNCHANGED <<wcalls, accepted, latch, fired>>
      ELSE /\ wcalls' = wcalls + 1
-          /\ IF Fails THEN latch' = TRUE /\ fired' = TRUE /\ UNCHANGED accepted
+          /\ IF Fails THEN /\ fired' = TRUE
+                            /\ accepted' = (IF Full THEN accepted + shape[seg].sz ELSE accepted)
+                            /\ latch' = ~(Full /\ "FailureByShortCount" \in Dev)
              ELSE accepted' = accepted + shape[seg].sz /\ UNCHANGED <<latch, fired>>
   /\ UNCHANGED <<shape, failAt, mode, seg, counted, phase, ret>>
 
